@@ -1771,7 +1771,20 @@ impl Machine {
     pub fn execute_main(&mut self) -> ReturnCode {
         // 0 is always base pointer to the main function
         self.base_pointer += 1;
-        self.execute(0, None)
+        // Stateful calls at global scope run once: they get their own zeroed storage
+        // sized from the global function's layout, instead of reading through the
+        // (possibly empty) storage that belongs to `dsp`.
+        let main_size = self
+            .prog
+            .global_fn_table
+            .first()
+            .map_or(0, |(_, f)| f.state_skeleton.total_size() as usize);
+        let mut main_states = StateStorage::default();
+        main_states.resize(main_size);
+        std::mem::swap(&mut self.global_states, &mut main_states);
+        let rc = self.execute(0, None);
+        std::mem::swap(&mut self.global_states, &mut main_states);
+        rc
     }
 }
 
